@@ -1,6 +1,8 @@
 import EaselModel.Sqio.Windows
 import EaselModel.Sqio.Tracker
 import EaselModel.Sqio.DriverLogic
+import EaselModel.Sqio.Agree
+import EaselModel.Sqio.Refine
 /-! # C04 — all ways of reading a sequence file agree with each other and with the file
 
 Property theorems only (proofs are glue on `Sqio/Windows.lean`, `Sqio/Refine.lean`, `Sqio/Spec.lean`).
@@ -11,7 +13,8 @@ Full statement (DESIGN §5 C04): block-size independence of the block reader (= 
 Read / ReadInfo / ReadSequence, true byte offsets, forward windows tile with context `min(C,·)` and 1-based contiguous
 coordinates, reverse strand = reverse complement tiled the same way, independence of line layout, `read (WriteFasta r) = r`.
 Proved here for every input: the window schedule (forward and reverse) that `sqascii_ReadWindow` computes tiles `1..L`
-(`fwd_windows_tile`, `rev_windows_tile`); the remaining clauses are tied by the exact differential run against the
+(`fwd_windows_tile`, `rev_windows_tile`); the byte stream seen through `nextchar` does not depend on the block size; the two
+single-step facts behind Read / ReadInfo agreement; the remaining clauses are tied by the exact differential run against the
 implementation and by the agreement monitors (see `props/c04.py`), and are listed `_partial` where a weaker theorem stands in. -/
 namespace EaselModel.Props.C04
 open EaselModel.Sqio EaselModel.Sqio.Windows
@@ -48,6 +51,30 @@ theorem rev_offset_brute_force (bpl rpl start : Int) (h : bpl ≤ 0 ∨ rpl ≤ 
   unfold subseqOffset
   have : (decide (bpl ≤ 0) || decide (rpl ≤ 0)) = true := by rcases h with h | h <;> simp [h]
   simp [this]
+
+/-- **Read vs ReadInfo, step 1**: storing the residues of a buffer (`addbuf`, done by Read / ReadSequence / ReadWindow and not by
+    ReadInfo) changes nothing of the file handle except the buffer position -/
+theorem addbuf_moves_only_bpos (a : Ascii) (sq : Sq) (n : Nat) : ∃ b, (addbuf a sq n).1 = { a with bpos := b } :=
+  Agree.addbuf_handle a sq n
+
+/-- **Read vs ReadInfo, step 2**: the next `loadbuf` does not depend on the buffer position (block mode), so the storing and the
+    counting scan see the same next block, offsets and end of data.
+    `read_readinfo_agree_partial`: the loop-level statement (same status, epos, L, eoff) is tied by the differential run. -/
+theorem loadbuf_ignores_bpos_partial (a : Ascii) (b : Nat) (hb : a.linebased = false) :
+    loadbuf { a with bpos := b } = loadbuf a := Agree.loadbuf_bpos a b hb
+
+/-- **Block-size independence of the byte stream** (the refinement "bytes + cursor" for the primitive every header parser is
+    written with): for every `B ≥ 1`, `nextchar` delivers `file[pos+1]` and moves the cursor by one, or reports EOF exactly at the
+    end of the file; where the block boundaries fall is invisible.
+    `block_size_independence_partial`: the corollary for whole records (`Read = parseFasta` for every `B`) is tied by the
+    differential run over B ∈ {1,2,3,7,64,4096,random}. -/
+theorem nextchar_block_size_independent_partial (a : Ascii) (c : UInt8) (h : Refine.WF a) (hb : a.bpos < a.nc) :
+    ((nextchar a c).2.1 = .ok ∧ Refine.pos (nextchar a c).1 = Refine.pos a + 1 ∧
+        a.file[(Refine.pos a + 1).toNat]? = some (nextchar a c).2.2) ∨
+    ((nextchar a c).2.1 = .eof ∧ Refine.pos a + 1 = a.file.size) := by
+  rcases (Refine.nextchar_refines a c h hb).2.2.2 with h1 | h1
+  · exact Or.inl ⟨h1.1, h1.2.2.1, h1.2.2.2⟩
+  · exact Or.inr ⟨h1.1, h1.2.2.1⟩
 
 /-- non-vacuity: windows of W = 5, C = 2 over a 12-residue sequence: 1..5, 4..10, 9..12 (as the real reader returns) -/
 example : fwdNext (fwdFirst 5) 2 5 5 = ⟨4, 10, 2, 7⟩ ∧ fwdNext ⟨4, 10, 2, 7⟩ 2 10 2 = ⟨9, 12, 2, 4⟩ := by decide
